@@ -163,8 +163,7 @@ def run_config(batch, rec):
     rec.assume_note("full column rank: R upper triangular with non-zero diagonal (denominators assumed non-zero); Q from the "
                     "Givens family; LAPACK / scipy.optimize.nnls replaced by their contracts")
     core.Ctx.generic_models = False
-    for cfg in batch["items"]:
-        {"vp": _run_vp, "nnls": _run_nnls, "dispatch": _run_dispatch, "callsite": _run_callsite}[cfg["kind"]](cfg, rec)
+    rec.each(batch["items"], lambda cfg: {"vp": _run_vp, "nnls": _run_nnls, "dispatch": _run_dispatch, "callsite": _run_callsite}[cfg["kind"]](cfg, rec))
 
 
 def _run_vp(cfg, rec):
